@@ -358,22 +358,23 @@ Lemma copy_step_eq f c n e :
   copy_step f (c, n) e = (fst (fst (c_insert f (ekey e) (eval e) c n)), snd (fst (c_insert f (ekey e) (eval e) c n))).
 Proof. unfold copy_step. cbn [fst snd]. destruct (c_insert f (ekey e) (eval e) c n) as [[c1 n1] r1]. reflexivity. Qed.
 
-Lemma copy_fold es : forall c n,
-  cinv FMap c -> sorted FMap es ->
-  (forall x y, In x (inorder (tr c)) -> In y es -> ekey x < ekey y) ->
-  let r := fold_left (copy_step FMap) es (c, n) in
-  cinv FMap (fst r) /\ inorder (tr (fst r)) = inorder (tr c) ++ renumber n es /\ snd r = (n + length es)%nat.
+Lemma copy_fold f es : forall c n,
+  cinv f c -> sorted f es ->
+  (forall x y, In x (inorder (tr c)) -> In y es -> klt f (ekey x) (ekey y)) ->
+  let r := fold_left (copy_step f) es (c, n) in
+  cinv f (fst r) /\ inorder (tr (fst r)) = inorder (tr c) ++ renumber n es /\ snd r = (n + length es)%nat.
 Proof.
   induction es as [|e es IH]; intros c n Hc Hs Hlt; cbv zeta.
   - cbn [fold_left fst snd renumber length]. rewrite app_nil_r. split; [exact Hc|split; [reflexivity|lia]].
   - cbn [fold_left]. rewrite copy_step_eq.
-    destruct (c_insert_ok FMap (ekey e) (eval e) c n Hc) as (Hc' & Hsi).
-    destruct (c_insert FMap (ekey e) (eval e) c n) as [[c' n'] rk]. cbn [fst snd] in Hc', Hsi |- *.
+    destruct (c_insert_ok f (ekey e) (eval e) c n Hc) as (Hc' & Hsi).
+    destruct (c_insert f (ekey e) (eval e) c n) as [[c' n'] rk]. cbn [fst snd] in Hc', Hsi |- *.
     unfold s_insert in Hsi.
-    rewrite (ins_list_all_below FMap) in Hsi by (intros x Hx; apply Hlt; cbn; auto).
-    rewrite (has_key_none (ekey e) (inorder (tr c))) in Hsi
-      by (intros x Hx; specialize (Hlt x e Hx ltac:(cbn; auto)); lia).
-    cbn [negb] in Hsi. injection Hsi as Hl Hn _. subst n'.
+    rewrite (ins_list_all_below f) in Hsi by (intros x Hx; apply Hlt; cbn; auto).
+    assert (Hfresh : match f with FMap => negb (has_key (ekey e) (inorder (tr c))) | FMulti => true end = true).
+    { destruct f; [|reflexivity]. rewrite has_key_none; [reflexivity|].
+      intros x Hx. specialize (Hlt x e Hx (or_introl eq_refl)). cbn [klt] in Hlt. lia. }
+    rewrite Hfresh in Hsi. injection Hsi as Hl Hn _. subst n'.
     destruct Hs as (He & Hs).
     specialize (IH c' (S n) Hc' Hs). cbv zeta in IH.
     destruct IH as (I1 & I2 & I3).
@@ -385,14 +386,17 @@ Proof.
       * rewrite I3. cbn [length]. lia.
 Qed.
 
-Lemma c_copy_ok src n :
-  cinv FMap src ->
-  cinv FMap (fst (c_copy FMap src n)) /\
-  inorder (tr (fst (c_copy FMap src n))) = renumber n (inorder (tr src)) /\
-  snd (c_copy FMap src n) = (n + length (inorder (tr src)))%nat.
+(* both flavours: the copy holds the source's (key, value) sequence in the source's order - in a
+   MultiMap every run of equal keys keeps its order, because each plain insert lands after all
+   entries with a key <= its own - with fresh slots n, n+1, ... *)
+Lemma c_copy_ok f src n :
+  cinv f src ->
+  cinv f (fst (c_copy f src n)) /\
+  inorder (tr (fst (c_copy f src n))) = renumber n (inorder (tr src)) /\
+  snd (c_copy f src n) = (n + length (inorder (tr src)))%nat.
 Proof.
   intros ((Hb & Hs) & Hsz).
-  apply (copy_fold (inorder (tr src)) c_empty n (cinv_empty FMap) Hs). intros x y [].
+  apply (copy_fold f (inorder (tr src)) c_empty n (cinv_empty f) Hs). intros x y [].
 Qed.
 
 (* ---- bulk insert: first plain, then hinted with the previous result ------------------------------------------ *)
